@@ -141,6 +141,8 @@ class Check:
                 'solver_results': STATS.by_result,
                 'solver_time_s': round(STATS.solver_time, 3),
                 'cvc5_crosscheck': STATS.cross,
+                'vacuity_checks': {'premise_sets_checked_satisfiable': STATS.vacuity_checked,
+                                   'rule': 'for every discharged obligation the conjunction of assumptions and path condition is itself sent to the solver (once per distinct premise set); an unsatisfiable premise makes the obligation inconclusive'},
                 'paths': self.paths,
                 'traces_validated_against_impl': self.traces_validated,
                 'functions_encoded': self.functions,
@@ -220,6 +222,23 @@ def _job_wrapper(args):
         signal.alarm(limit)
     except ValueError:
         old = None  # not in the main thread
+    # a solver call that ignores its own timeout keeps the interpreter inside C code, where the alarm cannot be delivered:
+    # a watchdog thread interrupts z3 once the budget is spent, the pending alarm then ends the job
+    import threading
+
+    done = threading.Event()
+
+    def _watchdog():
+        if done.wait(limit + 2):
+            return
+        import z3
+        while not done.wait(3):
+            try:
+                z3.main_ctx().interrupt()
+            except Exception:  # noqa: BLE001
+                pass
+
+    threading.Thread(target=_watchdog, daemon=True).start()
     try:
         res = fn(job, seed)
         err = None
@@ -231,6 +250,7 @@ def _job_wrapper(args):
         res = {'obligations': [], 'candidates': [], 'paths': 0}
         err = f'{type(e).__name__}: {e}\n{traceback.format_exc()[-1500:]}'
     finally:
+        done.set()
         try:
             signal.alarm(0)
             if old is not None:
@@ -238,11 +258,72 @@ def _job_wrapper(args):
         except ValueError:
             pass
     st = C.STATS
-    res['stats'] = {'queries': st.queries, 'solver_time': st.solver_time, 'shapes': list(st.shapes), 'by_result': st.by_result, 'cross': st.cross}
+    res['stats'] = {'queries': st.queries, 'solver_time': st.solver_time, 'shapes': list(st.shapes), 'by_result': st.by_result, 'cross': st.cross, 'vac': st.vacuity_checked}
     res['error'] = err
     res['job'] = str(job)[:200]
     res['wall'] = time.time() - t0
     return res
+
+
+def _child(a, conn):
+    try:
+        res = _job_wrapper(a)
+        conn.send(res)
+    except BaseException as e:  # noqa: BLE001
+        try:
+            conn.send({'obligations': [], 'candidates': [], 'paths': 0, 'stats': {'queries': 0, 'solver_time': 0.0, 'shapes': [], 'by_result': {}},
+                       'error': f'{type(e).__name__}: {e}', 'job': str(a[1])[:200], 'wall': 0.0})
+        except Exception:  # noqa: BLE001
+            pass
+    finally:
+        conn.close()
+        os._exit(0)
+
+
+def _run_forked(args, procs):
+    """One forked process per job (at most `procs` at a time).  A job that is still running a minute after its time
+    budget - a solver call that cannot be interrupted - is killed and reported as inconclusive; a pool would hang."""
+    import multiprocessing as mp
+    from multiprocessing.connection import wait
+
+    ctx = mp.get_context('fork')
+    limit = int(os.environ.get('VERIF_JOB_TIMEOUT', '1500' if os.environ.get('VERIF_TIER') == 'thorough' else '400'))
+    hard = limit + 60
+    pending = list(enumerate(args))
+    running = {}
+    results = [None] * len(args)
+
+    def lost(i, why):
+        fn, job, _seed = args[i]
+        return {'obligations': [{'name': f'{getattr(fn, "__name__", "job")}{str(job)[:80]}: completes within the time budget', 'status': 'inconclusive', 'detail': why, 't': float(limit)}],
+                'candidates': [], 'paths': 0, 'stats': {'queries': 0, 'solver_time': 0.0, 'shapes': [], 'by_result': {}}, 'error': None, 'job': str(job)[:200], 'wall': float(hard)}
+
+    while pending or running:
+        while pending and len(running) < procs:
+            i, a = pending.pop(0)
+            rd, wr = ctx.Pipe(duplex=False)
+            p = ctx.Process(target=_child, args=(a, wr))
+            p.start()
+            wr.close()
+            running[i] = (p, rd, time.time())
+        ready = wait([c for _p, c, _t in running.values()], timeout=1.0)
+        now = time.time()
+        for i, (p, c, t0) in list(running.items()):
+            if c in ready:
+                try:
+                    results[i] = c.recv()
+                except (EOFError, OSError):
+                    results[i] = lost(i, 'worker process died without a result')
+                c.close()
+                p.join(5)
+                del running[i]
+            elif now - t0 > hard:
+                p.kill()
+                p.join(5)
+                c.close()
+                results[i] = lost(i, f'job killed {hard} s after its start (solver call could not be interrupted)')
+                del running[i]
+    return results
 
 
 def run_jobs(chk: Check, fn, jobs, procs=None):
@@ -260,9 +341,7 @@ def run_jobs(chk: Check, fn, jobs, procs=None):
         results = [_job_wrapper(a) for a in args]
         C.STATS.__dict__.update(saved)
     else:
-        ctx = mp.get_context('fork')
-        with ctx.Pool(procs, maxtasksperchild=8) as pool:
-            results = pool.map(_job_wrapper, args, chunksize=1)
+        results = _run_forked(args, procs)
     for r in results:
         s = r['stats']
         C.STATS.queries += s['queries']
@@ -272,6 +351,7 @@ def run_jobs(chk: Check, fn, jobs, procs=None):
             C.STATS.by_result[k] = C.STATS.by_result.get(k, 0) + v
         for k, v in s.get('cross', {}).items():
             C.STATS.cross[k] = C.STATS.cross.get(k, 0) + v
+        C.STATS.vacuity_checked += s.get('vac', 0)
         chk.paths += r.get('paths', 0)
         chk.traces_validated += r.get('validated', 0)
         if r['error']:
